@@ -911,6 +911,39 @@ impl<'a> ClientAssociationOptions<'a> {
         }
     }
 
+    /// Verification hook: build the A-ASSOCIATE-RQ PDU
+    /// (private function `create_a_associate_req`) without a socket.
+    #[allow(unexpected_cfgs)]
+    #[cfg(dicom_rs_verif)]
+    pub fn verif_create_rq(
+        &'a self,
+        ae_title: Option<&str>,
+    ) -> Result<(Vec<PresentationContextProposed>, Pdu)> {
+        self.create_a_associate_req(ae_title)
+    }
+
+    /// Verification hook: process the acceptor's answer
+    /// (private function `process_a_association_resp`) without a socket.
+    ///
+    /// Returns the negotiated presentation contexts,
+    /// the acceptor's maximum PDU length and the peer AE title.
+    #[allow(unexpected_cfgs)]
+    #[cfg(dicom_rs_verif)]
+    pub fn verif_process_resp(
+        &self,
+        msg: Pdu,
+        presentation_contexts_proposed: &[PresentationContextProposed],
+    ) -> Result<(Vec<PresentationContextNegotiated>, u32, String)> {
+        self.process_a_association_resp(msg, presentation_contexts_proposed)
+            .map(|opts| {
+                (
+                    opts.presentation_contexts,
+                    opts.peer_max_pdu_length,
+                    opts.peer_ae_title,
+                )
+            })
+    }
+
     /// Establish the association with the given AE address.
     fn establish_impl<T, S>(
         self,
